@@ -54,7 +54,7 @@ func checkC09(c *km.Ctx) {
 	}
 	var writes []wsite
 	for _, fn := range c.P.AllFuncs {
-		if fn.Pkg == nil || fn.Pkg.Pkg.Path() != KMD {
+		if fn.Pkg == nil || !pkgIsKMD(fn.Pkg) {
 			continue
 		}
 		km.Instrs(fn, func(in ssa.Instruction) {
@@ -195,7 +195,7 @@ func checkC09(c *km.Ctx) {
 		// senders and channel capacity
 		nSend, nMake := 0, 0
 		for _, fn := range c.P.AllFuncs {
-			if fn.Pkg == nil || fn.Pkg.Pkg.Path() != KMD {
+			if fn.Pkg == nil || !pkgIsKMD(fn.Pkg) {
 				continue
 			}
 			km.Instrs(fn, func(in ssa.Instruction) {
